@@ -38,18 +38,18 @@ func (f OrderFinding) Key() string { return f.Fn.Name() + ":" + f.Target + ":" +
 // OrderAnalysis holds the result for a set of root functions.
 type OrderAnalysis struct {
 	Prog      *Prog
-	Funcs     []*Fn            // module-local call-graph closure of the roots
-	Loops     int              // map-range loops examined
-	Sites     int              // tainting constructs examined
-	Sanitised []string         // targets sorted before they escape (fn:target)
-	Private   int              // constructs with iteration-private targets
-	Returns   map[*Fn]bool     // functions summarised "returns map-ordered"
+	Funcs     []*Fn        // module-local call-graph closure of the roots
+	Loops     int          // map-range loops examined
+	Sites     int          // tainting constructs examined
+	Sanitised []string     // targets sorted before they escape (fn:target)
+	Private   int          // constructs with iteration-private targets
+	Returns   map[*Fn]bool // functions summarised "returns map-ordered"
 	// TaintedFields are struct fields (of receivers / parameters) that hold a
 	// slice in map order when some function returns; ranging over them elsewhere
 	// is a map-ordered source (field-sensitive, object-insensitive).
 	TaintedFields map[*types.Var]bool
-	Findings  []OrderFinding   // escapes
-	Unresolved map[string]bool // interface / func-value calls not followed
+	Findings      []OrderFinding  // escapes
+	Unresolved    map[string]bool // interface / func-value calls not followed
 	// SortSanitisers are the sort.Slice-style calls (with a caller-supplied
 	// comparator) that neutralised a map-ordered value; their comparators must be
 	// total orders on the elements, which the rules check separately.
